@@ -921,7 +921,15 @@ fn boundary<T: El, D: Dimension>(cfg: &SlotCfg) -> Result<BoundaryCondition<T, D
 /// finish a 1-D slot from ready-made arrays: `$data`, `$x` (Option for owned axes), strategy `$strat`
 macro_rules! finish1 {
     ($T:ty, $D:ty, $data:expr, $x:expr, $strat:expr, $cow:expr, $sib:expr, $keep:expr) => {{
-        let r = guard(|| Interp1DBuilder::new($data).x($x).strategy($strat).build());
+        let r = guard(|| match BUILD_ORDER.with(|o| o.get()) {
+            1 => Interp1DBuilder::new($data).strategy($strat).x($x).build(),
+            2 => {
+                let real = $x;
+                let decoy = real.clone().slice_move(ndarray::s![..;-1]);
+                Interp1DBuilder::new($data).x(decoy).x(real).strategy($strat).build()
+            }
+            _ => Interp1DBuilder::new($data).x($x).strategy($strat).build(),
+        });
         match r {
             Err(p) => Err(BuildFail::Panic(p)),
             Ok(Err(e)) => Err(berr(e)),
@@ -1047,7 +1055,16 @@ macro_rules! probe1_min {
 
 macro_rules! finish2 {
     ($T:ty, $D:ty, $data:expr, $x:expr, $y:expr, $strat:expr, $cow:expr, $sib:expr, $keep:expr) => {{
-        let r = guard(|| Interp2DBuilder::new($data).x($x).y($y).strategy($strat).build());
+        let r = guard(|| match BUILD_ORDER.with(|o| o.get()) {
+            1 => Interp2DBuilder::new($data).strategy($strat).y($y).x($x).build(),
+            2 => {
+                let real = $x;
+                let decoy = real.clone().slice_move(ndarray::s![..;-1]);
+                Interp2DBuilder::new($data).x(decoy).y($y).x(real).strategy($strat).build()
+            }
+            3 => Interp2DBuilder::new($data).y($y).x($x).strategy($strat).build(),
+            _ => Interp2DBuilder::new($data).x($x).y($y).strategy($strat).build(),
+        });
         match r {
             Err(p) => Err(BuildFail::Panic(p)),
             Ok(Err(e)) => Err(berr(e)),
@@ -1127,7 +1144,13 @@ macro_rules! probe2_min {
 
 /// The written-out instantiation matrix. Anything not listed is `Unsupported`
 /// (`supported()` mirrors this match and a self-test checks that they agree).
+thread_local! {
+    /// setter order for the build in progress on this thread (see `SlotCfg::build_order`)
+    static BUILD_ORDER: std::cell::Cell<u8> = const { std::cell::Cell::new(0) };
+}
+
 pub fn build_slot(cfg: &SlotCfg) -> Result<Box<dyn Slot>, BuildFail> {
+    BUILD_ORDER.with(|o| o.set(cfg.build_order));
     if !supported(cfg.kind, cfg.elem, cfg.storage, cfg.dimty, cfg.probe_min) {
         return Err(BuildFail::Unsupported(cfg.label()));
     }
